@@ -558,6 +558,21 @@ class History:
             eid = self.rng.choice([e for e in self.ents if -2 ** 31 <= e < 2 ** 31] + [unk]) if self.rng.random() < 0.6 else unk
             head = struct.pack('<ihii', eid, et, 3, 4) + bytes(24) + (struct.pack('<i', 0) if self.dialect in ('wot', 'wowp') else b'')
             self.emit('EntityCreate', head + binstream(b'\x00'), 'fault-entity-type'); return
+        if r < 0.16 and 'EntityCreate' in self.ids and self.rng.random() < 0.6:
+            # an update (or a call) for an id that does not exist YET, and right behind it the packet that creates that id with a value for the very
+            # same property: the early packet fails on its own and is gone - the entity starts with what its creation packet carries
+            tname = self.rng.choice(self.view.names); props = self.view.exposed(tname)
+            eid = self.next_id = self.next_id + self.rng.randrange(1, 4)
+            if props and eid not in self.ents:
+                i = self.rng.randrange(len(props)); n_, t_ = props[i]
+                self.emit('EntityProperty', struct.pack('<II', eid, i) + binstream(gen_types.wire_of(t_, self.val(t_))), 'fault-unknown-entity')
+                v2 = self.val(t_)
+                state = bytes([1, i]) + gen_types.wire_of(t_, v2)
+                head = struct.pack('<ihii', eid, self.view.type_index(tname), 3, 4) + bytes(24) + (struct.pack('<i', 0) if self.dialect == 'wot' else b'')
+                self.emit('EntityCreate', head + binstream(state), 'create')
+                self.ensure_entity(eid, tname)
+                if self.dialect != 'wowp': self.ents[eid]['client'][n_] = (t_, v2)
+                return
         if r < 0.2 and self.rng.random() < 0.5 and self.ents:
             # a packet for a KNOWN entity, then a run of packets for one and the same unknown id: each of them fails on its own, none may land on the
             # entity that was addressed last
